@@ -266,6 +266,20 @@ class BounceQueue(object):
         return [(envelope, 'bounce-id')]
 
 
+class BounceQueueQ(Queue):
+    """A real (relay-less) Queue object used as the separate bounce queue; as in normal set-up code it is constructed, handed to the
+    main queue and only started afterwards."""
+
+    def __init__(self, eng):
+        from slimta.queue.dict import DictStorage
+        super(BounceQueueQ, self).__init__(DictStorage())
+        self.eng = eng
+
+    def enqueue(self, envelope):
+        self.eng.on_bounce_enqueued(envelope)
+        return [(envelope, 'bounce-id')]
+
+
 class Engine(object):
     def __init__(self, cfg):
         self.cfg = cfg
@@ -322,10 +336,12 @@ class Engine(object):
 
         self.store = SchedStore(self, self.inner, cfg.get('announce', False))
         self.relay = ScriptRelay(self)
-        bq = BounceQueue(self) if cfg.get('bounce_queue') == 'separate' else None
+        bq = {'separate': BounceQueue, 'separate-queue': BounceQueueQ}.get(cfg.get('bounce_queue'), lambda e: None)(self)
         self.queue = Queue(self.store, self.relay, backoff=backoff, bounce_factory=self.bounce_factory,
                            bounce_queue=bq, store_pool=cfg.get('store_pool'), relay_pool=cfg.get('relay_pool'))
         self.queue.start()
+        if isinstance(bq, BounceQueueQ):
+            bq.start()
         self.settle()
 
     def backoff_value(self, attempts):
@@ -465,6 +481,9 @@ class Engine(object):
         m.known = True
         m.due = timestamp
         if m.is_bounce:
+            if str(self.cfg.get('bounce_queue')).startswith('separate'):
+                self.fail('C13', 'bounce-not-handed-to-configured-queue',
+                          'a bounce queue was configured, but the bounce for %s was enqueued into the main queue itself' % tag)
             self.on_bounce_enqueued(None, tag)
 
     def on_timestamp(self, tag, timestamp):
@@ -491,7 +510,7 @@ class Engine(object):
         for rec in self.seen_bounces:
             if rec.get('tag') == tag:
                 rec['enqueued'] += 1
-                if self.cfg.get('bounce_queue') == 'separate':
+                if str(self.cfg.get('bounce_queue')).startswith('separate'):
                     m = self.msgs.get(tag)
                     if m:
                         for r in m.rcpts:
